@@ -78,25 +78,25 @@ impl Header {
             }
 
             bad_state_property_count =
-                token::header_field(reader, "bad state property count", limit, false)?;
+                token::header_field(reader, "bad state property count", usize::MAX, true)?;
 
             if !token::required_newline_or_space(reader)? {
                 break;
             }
             invariant_constraint_count =
-                token::header_field(reader, "invariant constraint count", limit, false)?;
+                token::header_field(reader, "invariant constraint count", usize::MAX, true)?;
 
             if !token::required_newline_or_space(reader)? {
                 break;
             }
             justice_property_count =
-                token::header_field(reader, "justice property count", limit, false)?;
+                token::header_field(reader, "justice property count", usize::MAX, true)?;
 
             if !token::required_newline_or_space(reader)? {
                 break;
             }
             fairness_constraint_count =
-                token::header_field(reader, "fairness constraint count", limit, false)?;
+                token::header_field(reader, "fairness constraint count", usize::MAX, true)?;
 
             token::required_newline(reader)?;
             break;
